@@ -570,6 +570,7 @@ func genC16(c *Ctx) {
 		pkb := key.pk.Encode()
 		hpop := hashPoint(pkb, ph)
 		pop, err := crypto.BLSGeneratePOP(key.sk)
+		hold("BLSGeneratePOP", pop)
 		if err != nil {
 			panic(err)
 		}
@@ -671,6 +672,8 @@ func genC17(c *Ctx) {
 		data := c.bytes(c.intn(64))
 		p1, _ := crypto.SPOCKProve(sk1, data, h)
 		p2, _ := crypto.SPOCKProve(sk2, data, h)
+		hold("SPOCKProve", p1)
+		hold("SPOCKProve", p2)
 		hp := hashPoint(data, h)
 		// SPOCKProve = Sign
 		c.Case("prove-is-sign", fmt.Sprintf("sig.expect 0x%s %s", k1.Text(16), hx(hp)), "ok "+hx(p1))
